@@ -187,6 +187,8 @@ pub fn run(cli: &Cli) -> Report {
             match &r {
                 Ok(()) => sink.count("entitled_signer_succeeded"),
                 Err(e) if is_auth_error(e) => sink.fail("C19/entitled_signer_rejected", format!("{}: the entitled signer was rejected with {e:?}", p.name), json!({"instruction": p.name})),
+                // a program-level error other than an authorisation error means the access check was passed
+                Err(e) if e.code().map(|c| c >= 6000).unwrap_or(false) => sink.count("entitled_signer_passed_authorisation_then_failed"),
                 Err(e) => {
                     sink.count("entitled_signer_failed_for_another_reason");
                     sink.fail(&format!("C19/probe_not_valid/{}", p.name), format!("{}: the probe does not reach a successful execution with the entitled signer: {e:?}", p.name), json!({"instruction": p.name}));
